@@ -80,20 +80,22 @@ type SmellCondTruth struct {
 
 // SmellMethodTruth is what the generator planted for one method.
 type SmellMethodTruth struct {
-	Name          string
-	Form          string // class | static | abstract | iface-abstract | iface-default | iface-static
-	GetterSetter  bool
-	AccessorNamed bool // an ordinary method (parameters, statements) that carries a get…/set… name
-	Params        int
-	Varargs       bool // the last parameter is a variable-arity parameter (it is counted in Params)
-	Generic       bool // the method declares a type parameter of its own
-	HasBody       bool
-	StartLine     int // line holding modifiers, return type and name
-	CloseLine     int // line of the closing brace of the body (0 without body)
-	TopIfs        int
-	TopSwitches   int
-	Conds         []SmellCondTruth // one per top-level if, in source order
-	DecoyLines    []int            // lines on which a condition starts that is NOT a top-level if condition (nested if, else-if, while …)
+	Name              string
+	Form              string // class | static | abstract | iface-abstract | iface-default | iface-static
+	GetterSetter      bool
+	AccessorNamed     bool // an ordinary method (parameters, statements) that carries a get…/set… name
+	HeadSplit         bool // interface method whose modifiers / type parameters stand on StartLine, return type and name on the next line
+	TypedLambdaParams int  // explicitly typed lambda parameters in the body (not parameters of the method)
+	Params            int
+	Varargs           bool // the last parameter is a variable-arity parameter (it is counted in Params)
+	Generic           bool // the method declares a type parameter of its own
+	HasBody           bool
+	StartLine         int // line holding modifiers, return type and name
+	CloseLine         int // line of the closing brace of the body (0 without body)
+	TopIfs            int
+	TopSwitches       int
+	Conds             []SmellCondTruth // one per top-level if, in source order
+	DecoyLines        []int            // lines on which a condition starts that is NOT a top-level if condition (nested if, else-if, while …)
 }
 
 // SmellClassTruth is one generated file (exactly one top-level type).
@@ -140,6 +142,9 @@ func smellFormCtx(m *SmellMethodTruth) string {
 	if m.AccessorNamed {
 		s += "/accessor-named-method"
 	}
+	if m.HeadSplit {
+		s += "/modifiers-on-previous-line"
+	}
 	return s
 }
 
@@ -159,6 +164,9 @@ func smellParamCtx(m *SmellMethodTruth) string {
 	s := smellOff(m.Params, SmellParamsT)
 	if m.Varargs {
 		s += "/last-is-varargs"
+	}
+	if m.TypedLambdaParams > 0 {
+		s += "/typed-lambda-parameters-in-body"
 	}
 	return s + smellFormCtx(m)
 }
